@@ -664,7 +664,7 @@ Proof.
   - destruct (_ && _); [|exact H]. destruct (majority _ _); [|exact H]. apply ok_become_leader. exact H.
   - apply ok_submit; [exact Hm | exact H].
   - destruct (aget req _); [|exact H]. destruct (negb okr); [apply ok_fire; exact H|].
-    destruct (a <=? _); exact H.
+    destruct (a <=? _); [apply ok_fire; exact H | exact H].
   - destruct (_ && _); [|exact H].
     match goal with |- S_ok (if ok ?X then _ else _) => assert (S_ok X) as HX end.
     { destruct success; [|destruct reset; exact H].
